@@ -37,7 +37,9 @@ type Outcome struct {
 	Mon      []opmon.Violation      // operator contract violations (C18)
 	Leaked   int64                  // engine goroutines still alive after the grace period (C14)
 	Hang     bool                   // Exec did not return within the hang guard (C14)
-	Path     string                 // "native" | "fallback" | "" (creation failed)
+	Path     string                 // "native" | "fallback" | "" (creation failed), from the counter
+	QueryType   string              // Go type of the created query object
+	IsPromQuery bool                // the query object is the Prometheus engine's (fallback taken)
 	Counter  map[string]float64     // promql_engine_queries_total by fallback label
 	ErrIs    map[string]bool        // errors.Is classification of the creation / exec error
 	ExecErr  error                  `json:"-"`
@@ -238,6 +240,8 @@ func RunEngineCtx(ctx context.Context, c *Case, st *mstore.Store, withQuery func
 		classify(out.ErrIs, err)
 		return out
 	}
+	out.QueryType = fmt.Sprintf("%T", q)
+	out.IsPromQuery = strings.HasPrefix(out.QueryType, "*promql.")
 	ctx, cancel := context.WithCancel(ctx)
 	defer cancel()
 	st.Cancel = cancel
@@ -771,4 +775,29 @@ func selectorMatchesAny(vs *parser.VectorSelector, c *Case) bool {
 		}
 	}
 	return false
+}
+
+type panicQueryable struct{}
+
+func (panicQueryable) Querier(ctx context.Context, mint, maxt int64) (storage.Querier, error) {
+	panic("storage accessed during query creation")
+}
+
+// CreateOnly creates (and closes, without executing) the query of a case over a storage
+// that panics on any access. It returns the Go type of the query object, the creation
+// error, and the panic message if creation touched the storage.
+func CreateOnly(c *Case) (qtype string, err error, panicked string) {
+	defer func() {
+		if r := recover(); r != nil {
+			panicked = fmt.Sprint(r)
+		}
+	}()
+	eng := engine.New(EngineOpts(c.O, nil))
+	q, err := NewQuery(eng, panicQueryable{}, c)
+	if err != nil {
+		return "", err, ""
+	}
+	qtype = fmt.Sprintf("%T", q)
+	q.Close()
+	return qtype, nil, ""
 }
